@@ -197,6 +197,31 @@ class Block:
 
     SIZE_KEYS = ("hidden_size", "channel_size", "kernel_size", "stride_size")
 
+    def twin_replay(self, twin, rec, ret):
+        """Mutations.architecture_mutate applies the mutation that was really applied to the policy to the other networks of the
+        agent as getattr(net, last_mutation_attr)(**returned dict): on a copy of the pre-mutation module this must reproduce the
+        same architecture without drawing anything"""
+        if not rec.get("attr") or not isinstance(ret, dict) or not ret or rec.get("desc") is None:
+            return
+        try:
+            with Script([]):
+                getattr(twin, rec["attr"])(**ret)
+            rec["twin_same"] = (self.desc(twin) == rec["desc"])
+            rec["twin_desc"] = self.desc(twin)
+        except Exception as e:  # noqa
+            rec["twin_error"] = f"{type(e).__name__}: {e}"[:300]
+
+    def end_checks(self, m, obs):
+        """after the whole chain: still the same advertised methods; a final clone is an exact copy"""
+        try:
+            obs["methods_after"] = sorted(m.mutation_methods)
+            c = m.clone()
+            sd, cd = m.state_dict(), c.state_dict()
+            obs["final_clone"] = {"desc_same": self.desc(c) == self.desc(m), "methods_same": sorted(c.mutation_methods) == obs["methods_after"],
+                                  "weights_same": list(sd.keys()) == list(cd.keys()) and all(torch.equal(sd[k], cd[k]) for k in sd)}
+        except Exception as e:  # noqa
+            obs["final_clone"] = {"error": f"{type(e).__name__}: {e}"[:300]}
+
     def observe_sibling(self, sib, desc0, kw, kw0):
         """a second module built from the SAME configuration objects must not notice the mutations of the first"""
         out = {"desc_same": self.desc(sib) == desc0, "user_config_same": self.sizes_of(kw) == kw0}
@@ -224,6 +249,8 @@ class Block:
         for i, step in enumerate(case["steps"]):
             rec = {"error": None, "attr": None, "ret": [], "shapes": None, "rebuilt": None}
             sc = Script(step.get("r", []))
+            twin = m.clone() if case.get("twin") else None
+            ret = None
             try:
                 with sc:
                     ret = self.call(m, step)
@@ -237,6 +264,8 @@ class Block:
             except Exception as e:  # noqa
                 rec["desc"] = None
                 rec["error"] = rec["error"] or f"descriptor: {type(e).__name__}: {e}"[:300]
+            if twin is not None and rec["error"] is None:
+                self.twin_replay(twin, rec, ret)
             if rec["error"] is None and every > 0 and (i % every == 0 or i == n - 1):
                 self.observe_full(m, case, rec)
             obs["steps"].append(rec)
@@ -244,6 +273,8 @@ class Block:
                 break
         if sib is not None:
             obs["sibling"] = self.observe_sibling(sib, obs["desc0"], kw, kw0)
+        if not any(r["error"] for r in obs["steps"]):
+            self.end_checks(m, obs)
         return obs
 
     # -- oracle: the property stated on the implementation's behaviour
@@ -320,6 +351,13 @@ class Block:
                     out.append(Violation("bounds", f"{sig}:{step['m']}:bounds:{nm.split('[')[0]}", f"{where}: {nm}={v} outside [{lo},{hi}]"))
                 elif pv is not None and ((v > hi and v > pv) or (v < lo and v < pv)):
                     out.append(Violation("bounds", f"{sig}:{step['m']}:bounds-further-out:{nm.split('[')[0]}", f"{where}: {nm} {pv} -> {v} moves away from [{lo},{hi}]"))
+            if rec.get("twin_error"):
+                out.append(Violation("effective", f"{sig}:{step['m']}:twin-raised",
+                                     f"{where}: applying the applied mutation {rec['attr']}(**returned dict) to a copy of the module (as "
+                                     f"Mutations.architecture_mutate does for the other networks) raised {rec['twin_error']}"))
+            elif rec.get("twin_same") is False:
+                out.append(Violation("effective", f"{sig}:{step['m']}:twin-differs",
+                                     f"{where}: {rec['attr']}(**returned dict) on a copy of the module gave {rec.get('twin_desc')} instead of {post}"))
             for item in self.effect(case, step, pre, post, rec):
                 cl, det = item[0], item[1]
                 out.append(Violation(cl, item[2] if len(item) > 2 else f"{sig}:{step['m']}:{cl}", f"{where}: {det}"))
@@ -342,6 +380,19 @@ class Block:
             if out:
                 break
             pre = post
+        if not out and obs.get("methods_after") is not None and obs["methods_after"] != obs["methods"]:
+            added, removed = set(obs["methods_after"]) - set(obs["methods"]), set(obs["methods"]) - set(obs["methods_after"])
+            kind = ("encoder-layer-mutations-reenabled" if not removed and added and
+                    all(a.startswith("encoder.") and a.split(".")[-1] in ("add_layer", "remove_layer", "add_block", "remove_block") for a in added)
+                    else "changed")
+            out.append(Violation("advertised-methods", f"{sig}:advertised-methods-after-chain:{kind}",
+                                 f"after the chain {[s['m'] for s in case['steps']][:8]} mutation_methods = {obs['methods_after']}, before {obs['methods']}"))
+        fc = obs.get("final_clone")
+        if not out and fc:
+            if fc.get("error"):
+                out.append(Violation("rebuild", f"{sig}:final-clone:raised", f"clone() after the chain raised {fc['error']}"))
+            elif not (fc["desc_same"] and fc["methods_same"] and fc["weights_same"]):
+                out.append(Violation("rebuild", f"{sig}:final-clone:differs", f"clone() after the chain is not an exact copy: {fc}"))
         sb = obs.get("sibling")
         if sb and not out:
             what = f"two {self.name} modules built from one configuration, chain {[s['m'] for s in case['steps']]} applied to the first"
@@ -535,7 +586,7 @@ def oracle_case(case, obs):
 
 
 def key_case(case):
-    k = {x: case.get(x) for x in ("block", "net", "obs", "space", "vector_mlp", "clone", "sibling", "static", "cfg", "init", "steps", "every")}
+    k = {x: case.get(x) for x in ("block", "net", "obs", "space", "spec", "vector_mlp", "clone", "sibling", "twin", "static", "cfg", "init", "steps", "every")}
     return hashlib.sha1(json.dumps(k, sort_keys=True, default=str).encode()).hexdigest()
 
 
@@ -590,6 +641,8 @@ class CNN(Block):
         kw = dict(case["static"]); kw.update(case["cfg"])
         kw["channel_size"] = list(case["init"]["channels"]); kw["kernel_size"] = list(case["init"]["kernels"])
         kw["stride_size"] = list(case["init"]["strides"])
+        if kw.pop("tuple_kernels", False):        # kernel sizes given as (k, k) tuples: MutableKernelSizes.tuple_sizes branch
+            kw["kernel_size"] = [(k, k) for k in kw["kernel_size"]]
         return kw
 
     def desc(self, m):
@@ -816,6 +869,8 @@ class Net(Block):
             rec = {"error": None, "attr": None, "ret": [], "shapes": None, "rebuilt": None}
             sc = Script(step.get("r", []))
             try:
+                twin = m.clone() if case.get("twin") else None
+                ret = None
                 if case.get("clone", True):
                     parent_sd = {k: v.clone() for k, v in m.state_dict().items()}
                     m = m.clone()                         # clone-and-mutate
@@ -834,11 +889,15 @@ class Net(Block):
             except Exception as e:  # noqa
                 rec["desc"] = None
                 rec["error"] = rec["error"] or f"descriptor: {type(e).__name__}: {e}"[:300]
+            if twin is not None and rec["error"] is None:
+                self.twin_replay(twin, rec, ret)
             if rec["error"] is None and every > 0 and (i % every == 0 or i == n - 1):
                 self.observe_full(m, case, rec)
             obs["steps"].append(rec)
             if rec["error"] is not None:
                 break
+        if not any(r["error"] for r in obs["steps"]):
+            self.end_checks(m, obs)
         obs["config_untouched"] = (kw_snapshot == sizes(kw))      # the caller's size lists after the whole chain
         if sib is not None:
             sb = {"desc_same": self.desc(sib) == obs["desc0"], "user_config_same": obs["config_untouched"]}
